@@ -1273,6 +1273,10 @@ class Workflow(Trellis):
         -------
         file_hashes
             The current hashes of the files, keyed by path, ordered by path.
+            A path without an attached file node is left out:
+            the watcher also asks for paths it only knows through a glob pattern,
+            and a detached node at such a path (UNDECLARED, PLANNED, VOLATILE, ...)
+            has no external hash update to receive.
         """
         # The `label IN (SELECT path FROM path_list)` form makes the planner drive from
         # `node`'s `node_kind_label` index
@@ -1291,7 +1295,8 @@ class Workflow(Trellis):
         sql = (
             "SELECT node.label, file.hash FROM node "
             "JOIN file ON file.node = node.i "
-            "WHERE node.kind = 'file' AND node.label IN (SELECT path FROM path_list) "
+            "WHERE node.kind = 'file' AND NOT node.detached "
+            "AND node.label IN (SELECT path FROM path_list) "
             "ORDER BY node.label"
         )
         return {path: FileHash.from_json(hash_value) for path, hash_value in db.execute(sql)}
